@@ -410,7 +410,7 @@ def report(ctx, prop, cases, recs, failed, errs):
         return [x for x in cl if x.startswith("diag:") or x == "StdTypes" or clause_prop(x) == prop]
 
     def replay_of(c, rid):
-        r = {k: c[k] for k in c if k not in ("lon", "lat", "dirs")}
+        r = {k: c[k] for k in c if k != "workdir"}
         r["record"] = rid
         return r
 
@@ -659,3 +659,56 @@ def count_cases(ctx, cases):
     for c in cases:
         key = (tuple(map(tuple, c["mesh"])), c["width"], tuple(c["sup_names"]), c["via"], tuple(tuple(s) for s in c["hist"]), c.get("path"))
         ctx.count(1, key if (len(c["mesh"]) >= 2 or c["via"] == "file") else None)
+
+
+# ----------------------------------------------------------------------------- ./check C0x --replay <file>
+def replay_file(prop, path):
+    """Re-run the cases of a replay file (replays/<prop>_<clause>_<tier>.json) and judge them again."""
+    import shutil
+
+    from harness.core import Ctx
+
+    with open(path) as fh:
+        data = json.load(fh)
+    seen, hist, plain = set(), [], []
+    for v in data.get("cases", []):
+        c = v.get("replay")
+        if not c or c["id"] in seen:
+            continue
+        seen.add(c["id"])
+        (hist if "hist" in c else plain).append(c)
+    ctx = Ctx(prop + "_replay", "replay", 0)
+    bad = 0
+    try:
+        for c in hist:
+            c["workdir"] = ctx.work
+        if hist:
+            recs = [r for c in hist for r in X.replay(c) if "outside" not in r]
+            keep_flags(recs, prop)
+            failed, _, errs = mc.judge(ctx, recs, module="JudgeMeshHist", workers=2, tag="replay")
+            for r in recs:
+                rid = r["id"]
+                if rid in errs:
+                    print("RAISES %s %s" % (rid, errs[rid]))
+                    bad += r.get("error_kind") != "derive"
+                elif rid in failed:
+                    print("FAILS %s clauses=%s order=%s" % (rid, sorted(failed[rid]), r.get("order")))
+                    bad += 1
+                else:
+                    print("HOLDS %s" % rid)
+        if plain:
+            recs = [mc.record_case(c) for c in plain]
+            failed, _, errs = mc.judge(ctx, recs)
+            for r in recs:
+                rid = r["id"]
+                if rid in errs:
+                    print("RAISES %s %s" % (rid, errs[rid]))
+                    bad += 1
+                elif rid in failed:
+                    print("FAILS %s clauses=%s" % (rid, sorted(failed[rid])))
+                    bad += 1
+                else:
+                    print("HOLDS %s" % rid)
+        return 1 if bad else 0
+    finally:
+        shutil.rmtree(ctx.work, ignore_errors=True)
